@@ -977,7 +977,7 @@ pub fn run(tier: &str, seed: u64) -> i32 {
         "controlled_scheduler": {"pairs": sched.pairs, "schedules_run_on_real_handlers": sched.schedules, "schedules_conformant_with_model": sched.conformant, "schedules_where_a_handler_took_another_branch": nonconformant, "example_other_branch": sched.nonconformant.iter().take(2).map(|x| trunc(&x.1, 400)).collect::<Vec<_>>(), "preemption_bound": if thorough { 2 } else { 1 }, "max_scheduling_points": sched.max_points, "complete": sched.complete, "default_schedules_run_twice_identical": sched.replayed_twice, "replayed_prefixes_diverging": sched.replay_divergences.len()},
         "rwlock_on_this_platform_is_writer_preferring": writer_pref,
         "evaluations": combos + sched.schedules, "distinct_nontrivial": reps.len() as u64,
-        "rule": "lock traces extracted from every handler x 6 state classes on the real code; BFS over the product of all pairs of distinct traces and all reader/reader/writer and reader/writer/writer triples under writer-preferring semantics; all schedules of all pairs with a bounded number of preemptions on the real handlers",
+        "rule": "lock traces extracted from every handler x 7 state classes on the real code; BFS over the product of all pairs of distinct traces and all reader/reader/writer and reader/writer/writer triples under writer-preferring semantics; all schedules of all pairs with a bounded number of preemptions on the real handlers",
         "machinery_errors": errors,
     });
     ev.assumptions = vec!["std::sync::RwLock on this platform blocks new readers while a writer is queued (tested on every run)".into(), "waits with a timeout (simulations while a block is open) are always eventually enabled".into(), "the finite result generalises to any number of threads through the two discipline facts (no recursive acquisition, one global order), which are checked on every extracted trace".into()];
